@@ -253,6 +253,14 @@ func verifyFunc(L *Loaded, fc *FuncContract, fn *ssa.Function) (res *FuncResult)
 	st := newState()
 	fr.entry = newState()
 	reach := tTrue
+	if fn.Synthetic == "package initializer" {
+		// the initialiser runs once: its guard variable is false on entry
+		ex.inInit = true
+		if g, ok := fn.Pkg.Members["init$guard"].(*ssa.Global); ok {
+			lv := ex.ptrLV(ex.globalRef(g), types.Typ[types.Bool])
+			ex.assume(tTrue, not(ex.load(st, lv)))
+		}
+	}
 	// parameters
 	for _, p := range fn.Params {
 		v := ex.fresh("p_"+p.Name(), ex.sorts.sortOf(p.Type()))
